@@ -21,10 +21,57 @@ SET_PILOT = [S + "BaseEVSE.set_pilot@EVSE", S + "BaseEVSE.set_pilot@DeadbandEVSE
 
 SHARDS = {B + "Linear2StageBattery._charge": 6, B + "Linear2StageBattery._charge_stepwise": 2}
 
+EVSE_FNS = [S + x for x in (
+    "BaseEVSE.__init__", "EVSE.__init__", "DeadbandEVSE.__init__", "FiniteRatesEVSE.__init__",
+    "EVSE._valid_rate", "DeadbandEVSE._valid_rate", "FiniteRatesEVSE._valid_rate",
+    "EVSE.max_rate", "EVSE.min_rate", "DeadbandEVSE.max_rate", "FiniteRatesEVSE.max_rate", "FiniteRatesEVSE.min_rate",
+    "EVSE.allowable_pilot_signals", "DeadbandEVSE.allowable_pilot_signals", "FiniteRatesEVSE.allowable_pilot_signals",
+    "BaseEVSE.plugin", "BaseEVSE.unplug", "get_evse_by_type")]
+SHARDS[S + "get_evse_by_type"] = 8
+
 PLAN = {
+    "C13": dict(
+        level="proof",
+        text="Every validity predicate (_valid_rate of the three EVSE classes) is proved equal to the acceptance predicate written "
+             "from the property (within 1e-3 A of the allowable set); constructors establish the class invariants (finite list: strictly "
+             "increasing, contains 0, same members); set_pilot per receiver class: accepted => pilot recorded and exactly one charge of "
+             "the occupant, rejected => InvalidRateError with every heap field unchanged; plugin on an occupied station => "
+             "StationOccupiedError, occupant unchanged; every advertised value (max_rate, min_rate, allowable_pilot_signals, factory "
+             "products) satisfies the acceptance predicate. All parameters and pilots, no bound.",
+        note="floats as reals (a pilot exactly at a boundary +-1e-3 is decided in exact arithmetic); np.isclose/np.any and "
+             "set/sorted axioms; the Interface/network-side advertised-value cache is covered under C05/C12 when claimed",
+        functions=EVSE_FNS + SET_PILOT,
+        lemmas=["C13.advertised_is_accepted"],
+        trusted=["np.isclose(a, b, atol, rtol=0) <=> |a-b| <= atol ; np.any over a list is the disjunction (numpy axioms)",
+                 "set()/add/sorted(list(set)) yield the strictly increasing list of the distinct members (builtin axioms)"],
+    ),
+    "C14": dict(
+        level="proof",
+        text="Battery.charge is proved to draw min(pilot power, max power, power to exactly fill); Linear2StageBattery._charge "
+             "(noise off) is proved equal, on every path, to the closed-form solution F of the documented two-stage law written "
+             "independently from the docstring; over F alone: F(F(s,h1),h2)=F(s,h1+h2) (so T = T/2 twice), monotone in the duration "
+             "and in the pilot, F(s,0)=s; zero pilot delivers nothing; reset restores the initial charge and zero power. All "
+             "capacities, charges, powers, transition SoCs, pilots, voltages, periods.",
+        note="floats as reals; exp uninterpreted with instantiated axioms (positivity, monotonicity, exp x >= 1+x, product "
+             "instances); noise off as the property states",
+        functions=[B + "Battery.charge", B + "Battery.reset", B + "Linear2StageBattery.charge",
+                   B + "Linear2StageBattery._charge"],
+        lemmas=["C14.F_semigroup_monotone", "C14.F_monotone_in_pilot"],
+        trusted=[EXP_AXIOMS, "exp(a+b) = exp(a) exp(b) supplied as ground instances inside the C14 lemmas",
+                 "the spec function F (contracts/battery.py: F_core) is the closed-form solution of the documented law "
+                 "ds/dt = min(r, R(1-s)/(1-tr)); that it solves the ODE is checked by differentiation in the thorough tier"],
+    ),
     "C03": dict(
         level="proof",
+        text="Every battery charge variant (ideal, two-stage continuous and stepwise, any noise draw), EV.charge and set_pilot for "
+             "each EVSE class are symbolically executed from the current source and proved against postconditions 0<=rate<=pilot, "
+             "power<=max_power, charge non-decreasing and <=capacity, plus preservation of the battery invariant (which carries the "
+             "bound along sequences of pilots). All inputs, no bound.",
+        note="floats as reals; exp uninterpreted with instantiated axioms; np.random.normal is an arbitrary real; objects satisfy "
+             "their class invariant on entry",
         functions=BATTERY_FNS + [E + "EV.charge", E + "EV.reset"] + SET_PILOT,
         trusted=[EXP_AXIOMS, "np.random.normal returns an arbitrary real (every noise draw is covered)"],
     ),
 }
+
+NOT_CLAIMED = {}
